@@ -126,17 +126,19 @@ inline uint64_t hash_outputs(const ApiCase& c, const ExecResult& r) {
   }
   return h;
 }
-inline void add_module_ops(std::vector<LsmOp>& ops, const std::vector<uint64_t>& Ns) {
+inline void add_module_ops(std::vector<LsmOp>& ops, const std::vector<uint64_t>& Ns, uint64_t salt = 0) {
+  gen_salt() = salt;
   BoxOpts o; o.Ns = Ns; o.max_size = 2; o.vmp_max_dim = 2; o.vmp_max_size = 2; o.ks = {10}; o.cf = {CFG_NATIVE};
   for (auto& G : api_groups(o)) {
     // one representative (the last, i.e. largest, shape) per group
     std::shared_ptr<ApiCase> last;
     run_group(G, o, [&](ApiCase& c) { if (c.nontrivial) last = std::make_shared<ApiCase>(c); });
     if (!last) continue;
-    LsmOp op; op.name = last->id; op.family = "module"; op.warm_key = "";
+    LsmOp op; op.name = last->id + (salt ? sfmt("#data%llu", (unsigned long long)salt) : std::string()); op.family = "module"; op.warm_key = "";
     op.run = [last] { ExecResult r; ExecOpts eo; eo.prefill = 1; execute(*last, eo, r); return hash_outputs(*last, r); };
     ops.push_back(op);
   }
+  gen_salt() = 0;
 }
 inline void add_table_ops(std::vector<LsmOp>& ops) {
   for (uint32_t m : {4u, 16u}) {
